@@ -271,6 +271,9 @@ Proof.
   exact (implies_dec_sound _ _ (H _ Hin) v).
 Qed.
 
+Lemma cfg_macros_all_reviewed : cfg_macros_reviewed cfg_macro_sites = true.
+Proof. vm_compute. reflexivity. Qed.
+
 Lemma doc_files_present : forallb (fun e : string * bool => snd e) doc_files = true.
 Proof. vm_compute. reflexivity. Qed.
 
